@@ -4,13 +4,13 @@
 EXTENDS Stream, Json, IOUtils
 TraceLog == ndJsonDeserialize(IOEnv.TRACE)
 OutFile  == IOEnv.OUT
-VARIABLES l, rej, cur, w, max, seen, nexec, nund, ws, http
-vars == <<l, rej, cur, w, max, seen, nexec, nund, ws, http>>
+VARIABLES l, rej, cur, w, max, seen, nexec, nund, ws, http, srv, hostile
+vars == <<l, rej, cur, w, max, seen, nexec, nund, ws, http, srv, hostile>>
 
 ObsOf(e) == CASE e.e = "Req" -> <<"req", e.code, e.tok, e.pl>> [] e.e = "Pong" -> <<"pong", e.tok>> [] e.e = "Closed" -> <<"closed">>
 
 Judge ==
-  LET x == IF ws THEN ObsWS(w, http) ELSE Obs(w, max)
+  LET x == IF hostile THEN <<<<"undecidable">>>> ELSE IF ws THEN ObsWSH(w, srv) ELSE Obs(w, max)      \* hostile: only robustness is judged (C02)
       und == \E i \in 1..Len(x) : x[i][1] \in {"undecidable", "either"}
   IN IF und THEN "-"
      ELSE IF seen = x THEN ""
@@ -18,23 +18,23 @@ Judge ==
      ELSE IF Len(seen) > Len(x) /\ x = SubSeq(seen, 1, Len(x)) THEN "C05:messages-delivered-that-are-not-in-the-stream"
      ELSE "C05:delivered-messages-differ-from-the-stream"
 
-Init == l = 1 /\ rej = << >> /\ cur = -1 /\ w = << >> /\ max = 0 /\ seen = << >> /\ nexec = 0 /\ nund = 0 /\ ws = FALSE /\ http = 0
+Init == l = 1 /\ rej = << >> /\ cur = -1 /\ w = << >> /\ max = 0 /\ seen = << >> /\ nexec = 0 /\ nund = 0 /\ ws = FALSE /\ http = 0 /\ srv = TRUE /\ hostile = FALSE
 Consume ==
   /\ l <= Len(TraceLog)
   /\ LET e == TraceLog[l] IN
-     CASE e.e = "Reset" -> cur' = e.id /\ max' = e.max /\ w' = << >> /\ seen' = << >> /\ ws' = (e.proto = "ws") /\ http' = e.http /\ UNCHANGED <<rej, nexec, nund>>
-       [] e.e = "Stream" -> w' = e.w /\ UNCHANGED <<rej, cur, max, seen, nexec, nund, ws, http>>
-       [] e.e \in {"Req", "Pong", "Closed"} -> seen' = Append(seen, ObsOf(e)) /\ UNCHANGED <<rej, cur, w, max, nexec, nund, ws, http>>
+     CASE e.e = "Reset" -> cur' = e.id /\ max' = e.max /\ w' = << >> /\ seen' = << >> /\ ws' = (e.proto = "ws") /\ http' = e.http /\ srv' = (e.role = "s") /\ hostile' = (e.hostile = 1) /\ UNCHANGED <<rej, nexec, nund>>
+       [] e.e = "Stream" -> w' = e.w /\ UNCHANGED <<rej, cur, max, seen, nexec, nund, ws, http, srv, hostile>>
+       [] e.e \in {"Req", "Pong", "Closed"} -> seen' = Append(seen, ObsOf(e)) /\ UNCHANGED <<rej, cur, w, max, nexec, nund, ws, http, srv, hostile>>
        [] e.e = "End" -> LET v == Judge IN
                          /\ rej' = IF v \in {"", "-"} THEN rej ELSE Append(rej, [id |-> cur, line |-> l, why |-> v])
                          /\ nexec' = nexec + 1 /\ nund' = IF v = "-" THEN nund + 1 ELSE nund
-                         /\ UNCHANGED <<cur, w, max, seen, ws, http>>
-       [] e.e = "Crash" -> rej' = Append(rej, [id |-> cur, line |-> l, why |-> "C05:driver-crashed"]) /\ UNCHANGED <<cur, w, max, seen, nexec, nund, ws, http>>
-       [] OTHER -> UNCHANGED <<rej, cur, w, max, seen, nexec, nund, ws, http>>
+                         /\ UNCHANGED <<cur, w, max, seen, ws, http, srv, hostile>>
+       [] e.e = "Crash" -> rej' = Append(rej, [id |-> cur, line |-> l, why |-> "C05:driver-crashed"]) /\ UNCHANGED <<cur, w, max, seen, nexec, nund, ws, http, srv, hostile>>
+       [] OTHER -> UNCHANGED <<rej, cur, w, max, seen, nexec, nund, ws, http, srv, hostile>>
   /\ l' = l + 1
 Finish == /\ l = Len(TraceLog) + 1
           /\ JsonSerialize(OutFile, [rejected |-> rej, executions |-> nexec, discarded |-> nund, known |-> {}, lines |-> Len(TraceLog)])
-          /\ l' = l + 1 /\ UNCHANGED <<rej, cur, w, max, seen, nexec, nund, ws, http>>
+          /\ l' = l + 1 /\ UNCHANGED <<rej, cur, w, max, seen, nexec, nund, ws, http, srv, hostile>>
 Next == Consume \/ Finish
 Spec == Init /\ [][Next]_vars
 =============================================================================
